@@ -22,7 +22,7 @@ RULE = ("Engine S histories rich in cancels of granted retrievals with several i
 ASSUMPTIONS = ["items that become available within one kernel event (fleet batch) are mutually unordered here (C14 owns batch order)",
                "availability read from public lists items / ready_items"]
 
-WEIGHTS = {"rp": 5, "rg": 9, "put": 6, "get": 6, "cp": 1, "cg": 6, "settle": 1, "adv": 5}
+WEIGHTS = {"rp": 5, "rg": 9, "put": 6, "get": 6, "cp": 1, "cg": 6, "settle": 1, "adv": 5, "peek": 1}
 CLASSES = gen_store.ALL_PLAIN + gen_store.BELTS
 MAX_WORLDS = 3000
 
